@@ -2,7 +2,7 @@
    Only ExtrOcamlBasic is used (bool, option, unit, list, prod, sumbool, sumor
    mapped to OCaml's); N, positive, Z, nat stay the extracted inductive types. *)
 From Coq Require Import ExtrOcamlBasic.
-From XD Require Import Model.Base Model.Ellipsis Model.Checker Model.Parser.
+From XD Require Import Model.Base Model.Ellipsis Model.Checker Model.Parser Model.Text Model.Directive Model.RunLoop.
 Extraction Language OCaml.
 Extraction "../ocaml/xdmodel_core.ml"
   is_space is_linebreak is_word
@@ -14,4 +14,7 @@ Extraction "../ocaml/xdmodel_core.ml"
   norm_repr normalize check_match check_output strip_exception_details extract_exc_want_cb
   check_exception_cb check_got_vs_want default_flags strict_flags is_uU is_bB
   expandtabs min_indentation normalize_docstring label_lines group_lines parse oracles_of_tables is_balanced o_bal
-  locate_ps1 package_chunk.
+  locate_ps1 package_chunk
+  dedent codeblock extract_exc_want check_exception indent_text
+  rs_init rs_update rs_get rs_skips flags_of set_report_style DEFAULT_RUNTIME_STATE
+  has_any_code part_want part_check run anything_ran failed_line_offset failed_lineno init_state.
